@@ -411,7 +411,7 @@ func TestVerifC12(t *testing.T) {
 
 	// (2) random larger RAs, both orders; and self round trip.
 	rr := r.Rand("c12", "random")
-	m := r.Pick(6000, 600000)
+	m := r.Pick(6000, 2000000)
 	for i := 0; i < m; i++ {
 		a, b := vRandomRA(rr), vRandomRA(rr)
 		if rr.Intn(3) == 0 {
